@@ -20,6 +20,7 @@ THEOREMS = [
     "C08.shift_ok", "C08.shift_paths_gen", "C08.shift_paths", "C08.shift_keeps_ids", "C08.shift_frame",
     "C08.delete_children_paths", "C08.overriding_paths", "C08.merge_children_paths", "C08.merge_leaves_paths",
     "C08.replace_keeps_position", "C08.replace_later_sibling_observation",
+    "Modify.FromOK.full", "Modify.FromOK.partial",
     "C08.copy_ok", "C08.copy_paths", "C08.copy_fresh_ids", "C08.copy_origin_untouched",
     "C08.source_untouched", "C08.t2t_copy", "C08.delete_paths",
 ]
@@ -919,7 +920,29 @@ def shrink(case):
             yield Case(_line(nd), nd, case.tags)
 
 
-NOT_READY = True
-LEVEL_TEXT = ""
-LEVEL_NOTE = ""
-TECHNIQUE = ""
+NOT_READY = False
+LEVEL_TEXT = ("Proof. Lean 4 theorems (C08.*) about a hand-written executable model of copy_or_shift_logic / replace_logic "
+              "(identity-carrying rose trees, node references = name paths, fresh ids for copies), for ALL trees with unique "
+              "sibling names, all path names free of the separator, every fresh-id counter: (1) pairs_fold / pairs_fold_ok - one "
+              "call with a pair list = the sequential single-pair calls (exactly, for lists that pass the up-front validation; on the "
+              "success part unconditionally), for every flag combination; the pre-fix loop (D4) is refuted by a kernel-checked "
+              "counter-example; (2) single pair, the result characterised on its pre-order entry list (path, id, attrs), which fixes "
+              "path set, identity, attributes and sibling order at once: plain shift (shift_paths, shift_keeps_ids, shift_frame), "
+              "delete_children, plain copy (copy_paths, copy_fresh_ids, copy_origin_untouched), tree-to-tree copy (t2t_copy, "
+              "source_untouched for every flag combination and pair list), delete (delete_paths), overriding_paths, "
+              "merge_children_paths, merge_leaves_paths, replace_keeps_position; the from-path may be a printed full path "
+              "(with_full_path) or a partial path / node name matching exactly one node (FromOK.partial, find_path semantics). "
+              "Partial in this sense: each single-pair theorem fixes one kind of edit (the other merge/override flags off; merge and "
+              "override theorems are for shift onto an existing destination whose subtree is disjoint from the from-subtree; "
+              "replace for delete_children=False); the combinations not covered by a theorem (e.g. copy+merge, merge onto a missing "
+              "destination, overriding+merge_leaves, multi-character separators) rest on the correspondence check, which covers all "
+              "2^6 flag combinations, 1-3 interacting pairs and the five public functions.")
+LEVEL_NOTE = ("Trusted: Lean kernel, axioms <= {propext, Quot.sound} (audited each run), the hand-written model's fidelity - tied to "
+              "/repo's working tree on every run by differential testing of the five public functions (destination tree with "
+              "case-local object numbering, source tree, exception class) incl. an exhaustive small-scope stream; plus a model-free "
+              "oracle that applies the documented edit to the path set of the real tree and checks identity, attributes, relative "
+              "order, source-tree integrity and multi-pair = sequential. Observation (not demanded by the property text): when "
+              "the from-node of shift_and_replace_nodes is a LATER sibling of the replaced node it keeps its own place instead of "
+              "taking the replaced node's (C08.replace_later_sibling_observation).")
+TECHNIQUE = ("Lean 4 proof (entry-list filter lemmas for modify/remove/append/grow/relabel on name-addressed rose trees; fold law for the "
+             "pair loop) + correspondence check against shift_nodes / copy_nodes / shift_and_replace_nodes / the tree-to-tree variants")
